@@ -14,6 +14,7 @@ use vh_common::*;
 
 const NB: usize = 6; // badge resources 0..5
 const KNOWN_CLASS: &str = "timed_confirm_by_non_recovery_caller";
+const KNOWN_CLASS_CLOCK: &str = "timed_confirm_clock_saturation";
 
 #[derive(Clone, Copy, PartialEq, Eq, Debug)]
 enum Rule {
@@ -48,6 +49,7 @@ enum Meth {
     WithdrawFee(i64),
     ContributeFee(i64),
     SetRoleDirect(usize, Rule),
+    BurnBadge(u64),
 }
 #[derive(Clone, PartialEq, Eq, Debug)]
 enum RecAtt {
@@ -64,6 +66,7 @@ struct Obs {
     rec_wd: bool,
     roles: [Rule; 3],
     badge: bool,
+    fee: Option<i64>,
 }
 #[derive(Clone, Debug)]
 struct Step {
@@ -83,6 +86,7 @@ struct World {
     asset: ResourceAddress,
     minute: i64,
     last_ms: i64,
+    recovery_badge: Option<ResourceAddress>,
 }
 
 impl World {
@@ -100,7 +104,7 @@ impl World {
             .collect();
         let asset = ledger.create_fungible_resource(dec!(1000000), 0, account);
         let ms = ledger.get_current_proposer_timestamp_ms();
-        let mut w = World { ledger, v2, account, pk, badges, asset, minute: 0, last_ms: ms };
+        let mut w = World { ledger, v2, account, pk, badges, asset, minute: 0, last_ms: ms, recovery_badge: None };
         w.set_minute(ms / 60000 + 1, 0);
         w
     }
@@ -163,15 +167,20 @@ impl World {
         receipt.expect_commit(true).new_component_addresses()[0]
     }
     fn observe(&mut self, ac: ComponentAddress) -> (Obs, Option<u32>) {
-        let (state, vault, delay) = if self.v2 {
+        let (state, vault, delay, fee_vault, recovery_badge) = if self.v2 {
             let p: v2::AccessControllerV2StateFieldPayload = self.ledger.component_state(ac);
             let s = p.fully_update_and_into_latest_version();
-            (s.state, s.controlled_asset, s.timed_recovery_delay_in_minutes)
+            (s.state, s.controlled_asset, s.timed_recovery_delay_in_minutes, s.xrd_fee_vault, s.recovery_badge)
         } else {
             let p: v1::AccessControllerStateFieldPayload = self.ledger.component_state(ac);
             let s = p.fully_update_and_into_latest_version();
-            (s.state, s.controlled_asset, s.timed_recovery_delay_in_minutes)
+            (s.state, s.controlled_asset, s.timed_recovery_delay_in_minutes, None, s.recovery_badge)
         };
+        self.recovery_badge = Some(recovery_badge);
+        let fee = fee_vault.map(|v| {
+            let b = self.ledger.inspect_vault_balance(v.0 .0).expect("fee vault");
+            b.to_string().parse::<i64>().expect("whole XRD in the fee vault")
+        });
         let bal = self.ledger.inspect_vault_balance(vault.0 .0).expect("vault");
         let mut roles = [Rule::Deny; 3];
         for (i, name) in ["primary", "recovery", "confirmation"].iter().enumerate() {
@@ -206,6 +215,7 @@ impl World {
             rec_wd: matches!(state.4, RecoveryRoleBadgeWithdrawAttemptState::BadgeWithdrawAttempt),
             roles,
             badge: bal == dec!(1),
+            fee,
         };
         assert!(bal == dec!(1) || bal == dec!(0), "controlled asset balance {}", bal);
         (obs, delay)
@@ -296,6 +306,7 @@ impl World {
                     )
                 }),
             Meth::SetRoleDirect(r, x) => b.set_main_role(ac, ["primary", "recovery", "confirmation"][*r], self.rule(*x)),
+            Meth::BurnBadge(id) => b.burn_non_fungibles_in_account(self.account, self.recovery_badge.expect("observed"), [NonFungibleLocalId::integer(*id)]),
         };
         let manifest = b.try_deposit_entire_worktop_or_abort(self.account, None).build();
         let receipt = self.exec(manifest);
@@ -384,11 +395,12 @@ fn meth_coq(m: &Meth) -> String {
         Meth::WithdrawFee(a) => format!("(MWithdrawFee {})", coq_z(*a)),
         Meth::ContributeFee(a) => format!("(MContributeFee {})", coq_z(*a)),
         Meth::SetRoleDirect(r, x) => format!("(MSetRoleDirect {} {})", ["Primary", "Recovery", "Confirmation"][*r], rule_coq(*x)),
+        Meth::BurnBadge(id) => format!("(MBurnBadge {})", id),
     }
 }
 fn obs_coq(o: &Obs) -> String {
     format!(
-        "(mkobs {} {} {} {} {} {} {})",
+        "(mkobs {} {} {} {} {} {} {} {})",
         coq_bool(o.locked),
         match &o.prim_rec {
             None => "None".to_string(),
@@ -402,7 +414,8 @@ fn obs_coq(o: &Obs) -> String {
         },
         coq_bool(o.rec_wd),
         rs_coq(&o.roles),
-        coq_bool(o.badge)
+        coq_bool(o.badge),
+        coq_option(o.fee.map(|x| coq_z(x)))
     )
 }
 fn step_coq(s: &Step) -> String {
@@ -498,7 +511,7 @@ fn gen_step(rng: &mut Rng, w: &World, obs: &Obs, delay: Option<u32>, props: &[Pr
         (Meth::Stop(pick_prop(rng, stored_rec)), vec![0, 1, 2])
     } else if r < 91 {
         (Meth::CreateProof, vec![0])
-    } else if r < 94 {
+    } else if r < 93 {
         let n = rng.below(3);
         let ids: Vec<u64> = if rng.chance(1, 4) && *minted > 0 {
             vec![rng.below(*minted)] // an id minted before
@@ -506,6 +519,8 @@ fn gen_step(rng: &mut Rng, w: &World, obs: &Obs, delay: Option<u32>, props: &[Pr
             (0..n).map(|k| *minted + k).collect()
         };
         (Meth::Mint(ids), vec![0, 1])
+    } else if r < 95 {
+        (Meth::BurnBadge(rng.below(*minted + 1)), vec![0, 1, 2])
     } else if r < 96 {
         (Meth::ContributeFee(rng.below(4) as i64), vec![0, 1, 2])
     } else if r < 98 {
@@ -665,12 +680,17 @@ fn oracle(c: &Case) -> Vec<(String, String)> {
                             // the minute clock is an i32 and saturates: at the last representable minute a
                             // pending timed recovery whose due time lies beyond the horizon is confirmable
                             let elapsed = match due {
-                                Some(due) if due <= i32::MAX as i64 => s.now >= due,
-                                Some(_) => s.now == i32::MAX as i64,
+                                Some(due) => s.now >= due,
                                 None => false,
                             };
                             if !elapsed {
-                                why = Some(("".into(), format!("timed confirm at minute {} before the delay elapsed (proposed at {}, delay {:?})", s.now, t0, d)));
+                                // known class: the due minute does not fit the i32 minute clock and the clock
+                                // stands at its last value (the comparison saturates)
+                                let cls = match due {
+                                    Some(due) if due > i32::MAX as i64 && s.now == i32::MAX as i64 => KNOWN_CLASS_CLOCK,
+                                    _ => "",
+                                };
+                                why = Some((cls.into(), format!("timed confirm at minute {} before the delay elapsed (proposed at {}, delay {:?})", s.now, t0, d)));
                             } else if s.obs.roles != p.rules || s.obs.badge != badge {
                                 why = Some(("".into(), "rules after the timed confirmation differ from the proposal".into()));
                             } else if !sat(roles[1], &s.who) {
